@@ -1,6 +1,7 @@
 package main
 
 import (
+	"strings"
 	"bytes"
 	"errors"
 	"fmt"
@@ -300,6 +301,79 @@ func c12Spaces(c *fw.Ctx) {
 							}
 						}
 						r.Count("offsets", int64(len(fr)))
+					})
+				}
+			}
+		})
+	c.Space("stream/runt-frames", "a frame whose length prefix announces 0..11 octets (shorter than a DNS header) followed by a good frame of 12 or 300 octets on the same stream, the runt frame cut at every position: the first read reports an error (Conn.Read, which does not look at the content, returns the runt octets), and the NEXT read on the same connection returns the good message intact — the runt's octets were consumed with their frame; through ReadMsgHeader(nil), ReadMsgHeader(&hdr), Conn.Read, Conn.ReadMsg and Transfer.ReadMsg; non-trivial: all", true,
+		func(emit func(func(*fw.R))) {
+			for rs := 0; rs <= 11; rs++ {
+				for _, s2 := range []int{12, 300} {
+					rs, s2 := rs, s2
+					emit(func(r *fw.R) {
+						r.Nontrivial()
+						runt := c12Body(12, 8)[:rs]
+						// the good body must also decode for the ReadMsg entry points
+						gm := new(dns.Msg)
+						gm.Id = 0x1209
+						gm.Response = true
+						if s2 == 300 {
+							gm.Answer = []dns.RR{&dns.TXT{Hdr: dns.RR_Header{Name: "x.", Rrtype: dns.TypeTXT, Class: dns.ClassINET}, Txt: []string{strings.Repeat("t", 200), strings.Repeat("u", 70)}}}
+						}
+						good, perr := gm.Pack()
+						if perr != nil {
+							panic(perr)
+						}
+						stream := append(c12Frame(runt), c12Frame(good)...)
+						for cut := 0; cut <= 2+rs; cut++ {
+							var cuts []int
+							if cut > 0 {
+								cuts = []int{cut}
+							}
+							for how := 0; how < 5; how++ {
+								co := &dns.Conn{Conn: &segConn{data: stream, cuts: cuts}}
+								read := func() ([]byte, error) {
+									switch how {
+									case 0:
+										return co.ReadMsgHeader(nil)
+									case 1:
+										var h dns.Header
+										return co.ReadMsgHeader(&h)
+									case 2:
+										buf := make([]byte, 65535)
+										n, err := co.Read(buf)
+										return buf[:n], err
+									case 3:
+										m, err := co.ReadMsg()
+										if err != nil || m == nil {
+											return nil, err
+										}
+										b, _ := m.Pack()
+										return b, nil
+									default:
+										m, err := (&dns.Transfer{Conn: co}).ReadMsg()
+										if err != nil || m == nil {
+											return nil, err
+										}
+										b, _ := m.Pack()
+										return b, nil
+									}
+								}
+								got, err := read()
+								if how == 2 {
+									if err != nil || !bytes.Equal(got, runt) {
+										r.Fail("stream-runt/entry-2", "Conn.Read of a %d-octet frame cut at %v: %d octets, err %v", rs, cuts, len(got), err)
+									}
+								} else if err == nil {
+									r.Fail(fmt.Sprintf("stream-runt/accepted/entry-%d", how), "a frame of %d octets (shorter than a header) was returned as a message of %d octets without error", rs, len(got))
+								}
+								got, err = read()
+								if err != nil || !bytes.Equal(got, good) {
+									r.Fail(fmt.Sprintf("stream-runt/next-message/entry-%d", how), "after a runt frame of %d octets (cut at %v) the next frame of %d octets on the same connection came back as %d octets, err %v; want it intact", rs, cuts, len(good), len(got), err)
+								}
+							}
+						}
+						r.Count("reads", int64(5*(3+rs)))
 					})
 				}
 			}
